@@ -19,7 +19,7 @@ ASSUMPTIONS = [
     "a thread that makes no progress for 0.5 s while holding the token is treated as blocked on a lock and another "
     "thread is scheduled; a run that exceeds its watchdog is inconclusive",
 ]
-SHARDS = {"quick": 8, "thorough": 14}
+SHARDS = {"quick": 10, "thorough": 15}
 
 
 def scenarios(env, offset):
@@ -58,6 +58,29 @@ def scenarios(env, offset):
     add("Prefix*Unit", UNIT | PFX | {"Prefix.__mul__"}, lambda n: (lambda p=Prefix(17, 10000 + offset + n): p * Meter), wide=True)
     add("Unit.as_ratio", UNITOPS, lambda n: (lambda a=Meter ** (11000 + offset + n) / Second ** (11000 + offset + n): a.as_ratio()[1]), wide=True)
     add("Unit.quantify", UNITOPS | PFX, lambda n: (lambda a=Prefix(19, 3) * Foot ** (12000 + offset + n): a.quantify().unit), wide=True)
+    # other input shapes that reach the same constructors: float / Decimal exponents (what cross-base prefix
+    # arithmetic produces), quotients, roots, quantity arithmetic, parsing and JSON decoding
+    from decimal import Decimal as _D
+    import json as _json
+    from measured.json import MeasuredJSONDecoder as _Dec
+    add("Prefix(base, float exponent)", PFX, lambda n: (lambda: Prefix(29, float(20000 + offset + n))), Prefix._known, lambda n: (29, float(20000 + offset + n)))
+    add("Prefix(base, Decimal exponent)", PFX, lambda n: (lambda: Prefix(31, _D(21000 + offset + n))))
+    add("Prefix*Prefix cross-base", PFX, lambda n: (lambda a=Prefix(2, 22000 + offset + n), b=Prefix(4, 3): a * b))
+    add("Prefix/Prefix cross-base", PFX, lambda n: (lambda a=Prefix(3, 23000 + offset + n), b=Prefix(9, 2): a / b))
+    add("Prefix/Prefix", PFX, lambda n: (lambda a=Prefix(37, 24000 + offset + n), b=Prefix(37, 1): a / b))
+    add("Prefix.root", PFX, lambda n: (lambda a=Prefix(41, 2 * (25000 + offset + n)): a.root(2)))
+    add("Dimension.root", DIMOPS, lambda n: (lambda a=Mass ** (2 * (26000 + offset + n)): a.root(2)))
+    add("Dimension.as_ratio", DIMOPS | {"Dimension.as_ratio"}, lambda n: (lambda a=Length ** (27000 + offset + n) / Time ** (27000 + offset + n): a.as_ratio()[1]))
+    add("cross-base Prefix*Unit", UNIT | PFX | {"Prefix.__mul__"}, lambda n: (lambda p=Prefix(4, 3), u=Prefix(2, 28000 + offset + n) * Meter: p * u), wide=True)
+    add("Quantity*Quantity", UNITOPS | DIMOPS | PFX, lambda n: (lambda a=2 * Meter ** (29000 + offset + n), b=3 * Second ** (29000 + offset + n): (a * b).unit), wide=True)
+    add("Unit.parse", UNITOPS | DIMOPS | PFX, lambda n: (lambda text=f"m^{30000 + offset + n}*ft.^{30000 + offset + n}": Unit.parse(text)), wide=True)
+    add("Unit from JSON", UNIT | PFX | {"Unit.__from_json__", "Prefix.__from_json__", "Dimension.__from_json__"} | NEW,
+        lambda n: (lambda blob=_json.dumps({"__measured__": "Unit", "name": None, "symbol": None,
+                                             "dimension": {"__measured__": "Dimension", "name": None, "symbol": None, "exponents": [0, 31000 + offset + n] + [0] * (width - 2)},
+                                             "prefix": None,
+                                             "factors": [[{"__measured__": "Unit", "name": "meter", "symbol": "m", "dimension": {"__measured__": "Dimension", "name": "length", "symbol": "L", "exponents": list(Length.exponents)}, "prefix": None, "factors": None}, 31000 + offset + n]]}):
+                   _json.loads(blob, cls=_Dec)), wide=True)
+    add("Logarithm(base)", LOG, lambda n: (lambda: Logarithm(float(32000 + offset + n))), Logarithm._known, None)
     add("Prefix*Logarithm", LOG | PFX, lambda n: (lambda p=Prefix(23, 13000 + offset + n): p * m.Bel), Logarithm._known, None)
     add("Decibel[reference]", LOG, lambda n: (lambda ref=(14000 + offset + n) * Watt: m.Decibel[ref]), LogarithmicUnit._known, None)
     return out
@@ -71,7 +94,7 @@ def run(ctx):
     all_sc = scenarios(env, offset=0)
     mine = [s for i, s in enumerate(all_sc) if i % ctx.nshards == ctx.shard]
     quick = ctx.tier == "quick"
-    per_scenario_budget = (5.0 if quick else 150.0)
+    per_scenario_budget = (3.0 if quick else 120.0)
     for sc in mine:
         for nthreads in sc["threads"]:
             if nthreads == 3:
